@@ -136,7 +136,8 @@ func ruleRevoke(c *Ctx) {
 				return []Ev{{Kind: "unsubscribe-some", Stop: true}}
 			}
 			if call, ok := isCallTo(in, newEvent); ok {
-				if s, ok := constString(call.Common().Args[1]); ok && s == "unsubscribe" {
+				// (the event name may come in through a send helper: what the helper was handed on this path)
+				if s, ok := constString(t.Resolve(fr, call.Common().Args[1]).V); ok && s == "unsubscribe" {
 					return []Ev{{Kind: "event:unsubscribe"}}
 				}
 			}
@@ -223,7 +224,7 @@ func ruleRevoke(c *Ctx) {
 			for _, call := range callsIn(fn) {
 				if _, is := isCallTo(call, udM); is && dominates(st, call) {
 					for _, c2 := range callsIn(fn) {
-						if _, isS := isCallTo(c2, send...); isS && dominates(st, c2) && dominates(c2, call) {
+						if p.sendsLike(c2, send) && dominates(st, c2) && dominates(c2, call) {
 							ok = true
 						}
 					}
@@ -1909,4 +1910,28 @@ func loopBody(h *ssa.BasicBlock) map[*ssa.BasicBlock]bool {
 		}
 	}
 	return body
+}
+
+// sendsLike: the instruction sends to the client — a call of Send itself, or of a helper that did not exist on the
+// reference tree and (transitively) does (sendEvent(event, data)).
+func (p *Prog) sendsLike(in ssa.Instruction, send []*types.Func) bool {
+	if _, ok := isCallTo(in, send...); ok {
+		return true
+	}
+	call, ok := in.(ssa.CallInstruction)
+	if !ok {
+		return false
+	}
+	sf := call.Common().StaticCallee()
+	if sf == nil || !p.isRepoFn(sf) || p.onReferenceTree(sf) || sf.Parent() != nil {
+		return false
+	}
+	for _, h := range p.withNewHelpers(sf) {
+		for _, c2 := range callsIn(h) {
+			if _, ok := isCallTo(c2, send...); ok {
+				return true
+			}
+		}
+	}
+	return false
 }
